@@ -255,6 +255,15 @@ def handleImpl (ds : DState) (op : String) (args impl : List String) : Option (D
     let st := { (note st) with lastDeleted := if impl == ["ok", "1"] then victim else none }
     fin st (judge tag impl impl (if foreign && ok then [("delete_by_handle_of_another_parents_child_deletes_nothing", impl == ["ok", "0"])] else []))
   | "link" | "unlink" | "single" | "set" | "setlinks" =>
+    -- C03 / C08: a link by ENTITY that is accepted links that very entity (not another one of the same name): remembered here, judged
+    -- at the next dump
+    let linked : Option (String × String × String) := match op, args with
+      | "link", [rel, holder, "handle", k] =>
+        (match ok, slotId st holder, slotId st k with
+         | true, some h, some t => if h.length == 36 && t.length == 36 then some (rel, h, t) else none
+         | _, _, _ => none)
+      | _, _ => none
+    let st := { st with lastLinked := linked }
     fin (note st) (.ok s!"{op}.{(args.head?).getD ""}.{if ok then (impl[1]?).getD "ok" else (impl[1]?).getD "err"}")
   | "xcheck" =>
     match args with
@@ -310,6 +319,13 @@ def handleImpl (ds : DState) (op : String) (args impl : List String) : Option (D
           if since.isEmpty then []
           else if since.all (fun e => !e.2) then [("rejected_operation_leaves_no_trace", prev == d)]
           else if since.all (fun e => sessionOps.contains e.1 && e.2) then [("reopen_exposes_the_same_tree", prev == d)]
+          else if since.length == 1 && since.all (fun e => e.1.startsWith "link." && e.1.endsWith ".handle" && e.2) then
+            (match st.lastLinked with
+             | some (rel, hid, tid) =>
+               let field := if rel == "ref" then "refs" else if rel == "src" then "srcs" else if rel == "mA" then "das" else if rel == "mD" then "dfs"
+                 else if rel == "mT" then "tags" else "mtags"
+               [("link_by_entity_links_that_entity", d.any fun r => r.id == hid && (idsIn (r.field field)).contains tid)]
+             | none => [])
           else if since.length == 1 && since.all (fun e => e.1 == "del.R" && e.2) then relDeleteFeature prev d
           else if since.length == 1 && since.all (fun e => e.1.startsWith "del." && e.2) then relDelete prev d
           else []
